@@ -1,0 +1,6 @@
+//go:build !verif
+// +build !verif
+
+package index
+
+func verifTrace(w *Writer, kind string, snap *Snapshot, x uint64) {}
